@@ -169,6 +169,10 @@ def run(ctx: Ctx) -> Result:
             P = gp.pattern
             loopy = [('ph', [P('p', ['0000', '0100', '0001', '0000'], [['eq:0'], ['eq:1'], ['eq:2'], ['eq:3']]),
                               P('s', ['0000', '1000', '0000'], [['eq:0'], ['ne:4'], ['eq:3']], singleton=True)])]
+            # long histories: a looping block accepting hundreds of events in one group (history bounds, windows, copies)
+            for m in ((300, 1100) if ctx.thorough else (300,)):
+                yield Case([('ph', [P('p', ['0000', '0100', '0000'], [['eq:0'], ['eq:1'], ['eq:2']])])], 0,
+                           ev_ops([0] + [1] * m + [2]), 'long-loop')
             n = 1200 if ctx.thorough else 220
             for i in range(n):
                 phens = loopy if i % 4 == 0 else gp.random_phens(ctx.rng)
